@@ -102,6 +102,7 @@ def pTPred : Parser TPred := do
   | 2 => do let c ← pNat; pure (.const c)
   | 3 => do let n ← pNat; pure (.true_ n)
   | 4 => pure .lt
+  | 5 => do let n ← pNat; pure (.notIn n)
   | _ => fun _ => none
 
 end Drv
